@@ -1016,6 +1016,10 @@ func genSrvGoAway(p *prng, thorough bool, w *bufio.Writer) {
 			}
 		}
 		kind := p.intn(22)
+		if c%5 == 2 {
+			// … and an offence that is reported about a stream (the GOAWAY then records which streams it promises)
+			kind = []int{18, 11, 12, 16, 10}[(c/5)%5]
+		}
 		g.line("#connoffence %d", kind)
 		g.gaugeEach = true
 		g.connOffence(kind)
